@@ -2106,6 +2106,8 @@ class Recipe:
             what: What to remove. Can be a type of substance or a specific substance. Defaults to LIQUID.
         """
 
+        if self.locked:
+            raise RuntimeError("This recipe is locked.")
         if isinstance(destination, PlateSlicer):
             if destination.plate.name not in self.results:
                 raise ValueError(f"Destination {destination.plate.name} has not been previously declared for use.")
@@ -2130,6 +2132,8 @@ class Recipe:
             new_name: Optional name for new container.
         """
 
+        if self.locked:
+            raise RuntimeError("This recipe is locked.")
         if not isinstance(solute, Substance):
             raise TypeError("Solute must be a Substance.")
         if not isinstance(concentration, str):
@@ -2165,6 +2169,8 @@ class Recipe:
             quantity: Desired final quantity in container.
 
         """
+        if self.locked:
+            raise RuntimeError("This recipe is locked.")
         if isinstance(destination, PlateSlicer):
             if destination.plate.name not in self.results:
                 raise ValueError(f"Destination {destination.plate.name} has not been previously declared for use.")
